@@ -124,6 +124,10 @@ def jobs_simple(prop, profile="general", matrix=None, miri_tables=None):
             # a weak pointer held inside any provided container or behind a trait object (dyn_collect!)
             # never keeps its target's value alive: weakly held targets are gone after two cycles
             js.append(trc("container-survival", "C05", "dbg", "impls", shards=1, extra=["--only", "survival:containers"]))
+            js.append(trc("container-survival", "C05", "asan", "impls", shards=1, extra=["--only", "survival:containers"]))
+            # ... and is REPORTED as weak by every provided container and trait-object adapter (else its
+            # target's shell is released under it): the GcWeak rows of the recorder table
+            js.append(trc("weak-in-containers", "C05", "dbg", "impls", shards=1, extra=["--only", "GcWeak:*"]))
         if prop == "C02":
             # end-to-end exactness through every provided container and through trait objects:
             # weakly held targets must be gone after two cycles, strongly held ones alive
